@@ -108,7 +108,13 @@ def msgacc_cell(P, A):
         B.Ctx.raw = False
     if P.get('pretty'):
         ET.indent(root, space='  ')
-    msg = B.wrap(root)
+    made = B.call(lambda: B.wrap(root))
+    if made.raised:
+        B.hit()
+        B.note(sig='message-not-classifiable-' + type(made.exc).__name__, observed=B.conc(made.exc),
+               expected='a message object')
+        return False
+    msg = made.result
     sent = None
     if has_new:
         base = msg.base_tag.find('element_source') if msg.base_tag.find('element_source') is not None else msg.base_tag
